@@ -110,6 +110,8 @@ type Exec struct {
 	ivCache    map[int]ival
 	typeObjs   map[string]*Object
 	hashApps   []hashApp
+	asmPos     string
+	modelPrefer *smt.Term
 	frozen     int
 	frozenMark int
 	wlocks     map[*Object]int
@@ -139,6 +141,9 @@ func (x *Exec) notEncoded(f string, a ...interface{}) {
 }
 
 func (x *Exec) posStr() string {
+	if x.asmPos != "" {
+		return x.asmPos
+	}
 	if x.curPos.IsValid() {
 		p := x.eng.Fset.Position(x.curPos)
 		return fmt.Sprintf("%s:%d", trimPath(p.Filename), p.Line)
@@ -344,7 +349,12 @@ func (x *Exec) check(c *smt.Term, kind, msg string) {
 		}
 		// prefer a witness whose free input bytes are pairwise distinct: replays against the
 		// real code are then more likely to make a wrong-data effect observable
-		if d := x.distinctInputs(); d != nil {
+		if x.modelPrefer != nil {
+			// harness-supplied preference (e.g. "a valid token follows") for a replay-friendly witness
+			if m2, r2 := x.satModel(x.st.BAnd(blocked, x.modelPrefer)); r2 == smt.Sat {
+				model = m2
+			}
+		} else if d := x.distinctInputs(); d != nil {
 			if m2, r2 := x.satModel(x.st.BAnd(blocked, d)); r2 == smt.Sat {
 				model = m2
 			}
@@ -769,6 +779,8 @@ func (x *Exec) coerceLeaf(raw Value, size int, kind leafKind) Value {
 				return r.Off
 			}
 			return r
+		case SymAddr, codeAddr:
+			return r // opaque 8-byte values spilled by generated code (Tier 3)
 		}
 	case lkBool:
 		switch r := raw.(type) {
